@@ -165,6 +165,15 @@ class Span:
     def find(self, *segments):
         return self.source.find(*segments, within=self)
 
+    def find_all(self, seg):
+        return self.source.find_all(seg, within=self)
+
+    def find_expr(self, pattern):
+        return self.source.find_expr(pattern, within=self)
+
+    def find_stmt(self, pattern):
+        return self.source.find_stmt(pattern, within=self)
+
 
 class Source:
     _cache = {}
@@ -324,7 +333,7 @@ class Source:
         "match SHIFT_AMOUNTS . get ( & ch )"); returns the span from its first token to the matching '}' of the
         first '{' that follows at nesting depth 0 (a match / if / for / while / block expression)."""
         span = within or self.whole()
-        want = pattern.split()
+        want = [t.text for t in lex(pattern) if t.kind != "comment"]
         code = self.tokens_in(span.start, span.end)
         for i in range(len(code) - len(want)):
             if all(code[i + k].text == w for k, w in enumerate(want)):
@@ -341,6 +350,41 @@ class Source:
                         break
                     j += 1
         raise SliceError("expression '%s' not found in %s" % (pattern, span.name or self.path))
+
+    def find_bracketed(self, pattern, within=None):
+        """Sub-expression slice: `pattern` must end with an opening bracket; returns from its first token to the matching close."""
+        span = within or self.whole()
+        want = [t.text for t in lex(pattern) if t.kind != "comment"]
+        code = self.tokens_in(span.start, span.end)
+        out = []
+        for i in range(len(code) - len(want)):
+            if all(code[i + k].text == w for k, w in enumerate(want)):
+                o = code[i + len(want) - 1]
+                if o.text not in OPEN:
+                    raise SliceError("pattern must end with an opening bracket")
+                out.append(Span(self, code[i].start, self.match_close(o.start) + 1, span.name + "::sub(" + pattern + ")"))
+        if not out:
+            raise SliceError("sub-expression '%s' not found in %s" % (pattern, span.name or self.path))
+        return out
+
+    def find_stmt(self, pattern, within=None):
+        """Statement-level slice: from the first token of `pattern` to the terminating ';' at nesting depth 0."""
+        span = within or self.whole()
+        want = [t.text for t in lex(pattern) if t.kind != "comment"]
+        code = self.tokens_in(span.start, span.end)
+        for i in range(len(code) - len(want)):
+            if all(code[i + k].text == w for k, w in enumerate(want)):
+                j = i
+                while j < len(code):
+                    t = code[j]
+                    if t.kind == "punct" and t.text in OPEN:
+                        close = self.match_close(t.start)
+                        while code[j].start < close:
+                            j += 1
+                    elif t.kind == "punct" and t.text == ";":
+                        return Span(self, code[i].start, t.end, span.name + "::stmt(" + pattern + ")")
+                    j += 1
+        raise SliceError("statement '%s' not found in %s" % (pattern, span.name or self.path))
 
     def find_all(self, seg, within=None):
         span = within or self.whole()
